@@ -218,7 +218,12 @@ def shrink(hbin, b, cfg, listed):
             pass
         return b, spec_of(b), judge(cfg, b, listed)[1]
     if mode in SIM_MODES:
-        if ":fail" not in d.get("mach", ""):
+        mach0 = d.get("mach", "")
+        if ":empty" in mach0 or ":noreg" in mach0:
+            # a spare processor that cannot be initialised, behind the only working one
+            kind = "empty" if ":empty" in mach0 else "noreg"
+            cands.append("%s,1,1,chain:P1:r8:incs.0:%s1" % (mode, kind))
+        elif ":fail" not in mach0:
             cands.append("%s,1,1,chain:P1:r8:incs.0" % mode)
         else:
             # which workers are stranded depends on the order in which they report: several failing
@@ -324,7 +329,8 @@ def run(rep):
         "rule": "seeded batches (VERIF_SEED) of n in {1,10,100[,1000]} sequential and concurrent "
                 "SinglePipelineSimulate calls, Fitness_default, raw VM launch/step/shutdown, bmreqs and basm "
                 "instances on generated chain machines (1..4 processors, 8/16/32 bit), the same on machines with "
-                "1..3 extra processors whose every step fails (addf16 at 8/32 bit), and cmd/simfinetune's "
+                "1..3 extra processors whose every step fails (addf16 at 8/32 bit), on machines with a spare processor that "
+                "cannot be initialised (empty program / no registers) at a random index, and cmd/simfinetune's "
                 "FitnessFunction worker pool with Workers in {4, 1, 0, negative}; evaluations = simulation calls; "
                 "non-trivial = a batch that started at least one worker; distinct = distinct (mode, n, k, machine)",
         "samples": samples or [{"note": "no batch ran"}],
